@@ -312,7 +312,7 @@ func cqRoot(p cqp) func() {
 		if e2 := res.Err(); !sameErr(final, e2) {
 			vapi.Fail("C20: Err changed from %v to %v by a Close after the terminal state", final, e2)
 		}
-		if p.prop == "C21" {
+		if p.prop == "C21" || p.prop == "C19" {
 			// the full concurrency budget is available again: a follow-up query whose first
 			// MaxQueryConcurrency reads wait for each other must complete
 			arrived, opened := 0, false
@@ -631,6 +631,29 @@ func init() {
 			}
 			if p.faults {
 				s.Fault = 1
+			}
+			out = append(out, s)
+		}
+		return out
+	}
+	// C19 (scheduler part): read failures on a file whose filter pass needs several region
+	// reads (sections in reverse block order), then a follow-up query; besides the cursor's
+	// terminal state the run is watched by the pool shim (nothing may be released twice) and
+	// the follow-up query must return exactly the fixture's rows
+	Registry["C19"] = func(tier string) []Scenario {
+		ps := []cqp{
+			{fixture: "reordered", conc: 2, takes: -1, faults: true, engine: "fresh", prop: "C19"},
+			{fixture: "reordered", conc: 1, takes: -1, faults: true, engine: "fresh", prop: "C19"},
+		}
+		if tier == "thorough" {
+			ps = append(ps, cqp{fixture: "reordered", conc: 2, takes: 1, closer: 1, faults: true, engine: "started", prop: "C19"},
+				cqp{fixture: "reordered", conc: 2, takes: -1, cancel: true, faults: true, engine: "fresh", prop: "C19"})
+		}
+		var out []Scenario
+		for _, p := range ps {
+			s := Scenario{Prop: "C19", Name: p.name(), Root: cqRoot(p), Setup: func() { setupReordered() }, Horizon: time.Second, Sched: 1, DelayBound: true, Fault: 1, PoolPoints: false}
+			if tier == "thorough" {
+				s.Sched, s.Fault = 2, 2
 			}
 			out = append(out, s)
 		}
